@@ -161,8 +161,28 @@ class Driver(object):
             self.s = None
 
 
-def interesting_offset(rng, span):
+def boundary_offsets(mode):
+    """Input generation only: offsets of the first and last rows of every bank / page of the mode (from the mapper's strides)."""
+    mm = mode.memorymap
+    page = mm.page_size
+    if mode.is_text_mode:
+        bpr, banks, bank, rows = 2 * mode.width, 1, page, mode.height
+    else:
+        bpr, banks, bank = mm._bytes_per_row, mm._interleave_times, mm._bank_size
+        rows = -(-mode.pixel_height // banks)
+    res = []
+    for p in (0, 1):
+        for b in range(banks):
+            base = p * page + b * bank
+            res += [base, base + bpr, base + (rows - 2) * bpr, base + (rows - 1) * bpr, base + rows * bpr, base + bank - 1]
+    return [x for x in res if x >= 0]
+
+
+def interesting_offset(rng, span, bounds=()):
     """An offset into video memory, dense near rows, banks and pages (all layouts use multiples of these)."""
+    k = rng.random()
+    if bounds and k < 0.3:
+        return max(0, min(span - 1, rng.choice(bounds) + rng.randint(-6, 170)))
     k = rng.random()
     if k < 0.12:
         # last rows of the picture in the usual layouts (row starts of the last scan line / text row, per bank and page)
@@ -183,6 +203,7 @@ def random_ops(d, rng, nops, text):
     span = min(65536, disp.mode.memorymap.page_size * 2 + 600)
     mono = disp.mode.name in ('mdatext80', 'mdatext40', 'ega_monotext80', 'ega_monotext40')
     home = 0xA000 if planar else (0xB000 if mono else 0xB800)
+    bounds = boundary_offsets(disp.mode)
     for _ in range(nops):
         k = rng.random()
         # mostly the segment of the mode, sometimes a shifted one (same bytes, other offsets) or a foreign one
@@ -191,7 +212,7 @@ def random_ops(d, rng, nops, text):
             seg, bias = home + sh, -16 * sh
         else:
             seg, bias = rng.choice(SEGS), 0
-        off = interesting_offset(rng, span) + bias
+        off = interesting_offset(rng, span, bounds) + bias
         off = max(0, min(65535, off))
         if planar and rng.random() < 0.15:
             d.plane(rng.choice([0, 1, 2, 3, 3, 5]), rng.choice([1, 2, 4, 8, 15, 255, 3, 10, 0]))
@@ -212,6 +233,18 @@ def random_ops(d, rng, nops, text):
             d.bload(seg, off, data)
         if rng.random() < 0.06:
             content(d, rng, text, 2)
+
+
+def frame(d, rng, text):
+    """Content on the first and last rows / columns of the page (a box frame, or text on rows 1 and 25)."""
+    disp = d.s.impl.display
+    if text:
+        w = disp.mode.width
+        d.draw('COLOR %d,%d: LOCATE 1,1: PRINT STRING$(%d,%d);: LOCATE 25,1: PRINT STRING$(%d,%d);: LOCATE 2,1' % (
+            rng.randint(1, 15), rng.randint(0, 7), w, rng.randint(33, 254), w - 1, rng.randint(33, 254)))
+    else:
+        pw, ph = disp.mode.pixel_width, disp.mode.pixel_height
+        d.draw('LINE (0,0)-(%d,%d),%d,B: LINE (1,%d)-(%d,1),%d' % (pw - 1, ph - 1, rng.choice([1, 3, 5, 7, 15]), ph - 2, pw - 2, rng.choice([1, 2, 3, 9, 14])))
 
 
 def content(d, rng, text, n):
@@ -238,7 +271,7 @@ def run(ctx):
     # 2. code -> spec
     d = Driver(ctx)
     rng = ctx.rng
-    nops = ctx.pick(12, 260)
+    nops = ctx.pick(12, 200)
     combos = []
     for adapter, modes in ADAPTER_MODES.items():
         for m in modes:
@@ -253,9 +286,11 @@ def run(ctx):
             last = adapter
         d.set_mode(stmts)
         text = d.s.impl.display.mode.is_text_mode
+        frame(d, rng, text)
         content(d, rng, text, ctx.pick(5, 20))
         if d.s.impl.display.mode.num_pages > 1:
             d.draw('SCREEN ,,1,0')
+            frame(d, rng, text)
             content(d, rng, text, ctx.pick(3, 10))
             d.draw('SCREEN ,,0,0')
         random_ops(d, rng, nops, text)
